@@ -389,6 +389,18 @@ def r7_label_provenance(R) -> None:
             'whenever the expression contains a backtick elsewhere', where=f.where(n), path=f.path_to(n))
     R.check(int_guard, q, 'int-only-increment', 'the +1 applies only to integer positions (slice hits already carry an exclusive stop)',
             'the +1 is not restricted to integer stops', where=f.where(n))
+    # a bracket that holds no backtick at all is not a label index: it must come through the rewriting as written - whatever
+    # it is (a name, an expression, a hexadecimal literal, a list), not only a decimal integer literal
+    m_ = (f.fi.params() + ['match'])[0]
+    asis = [r for r in f.returns() if text(r.ast.value) in (f'{m_}.group(0)', f'{m_}.group()', f'{m_}[0]')]
+    first_work = [n2 for n2 in f.cfg.nodes if n2.kind == 'stmt' and n2.ast is not None and any(method_call(x, 'split') or is_call(x, 'resolve_index_in_span') for x in ast.walk(n2.ast))]
+    # the rewriting proper runs only on brackets that do hold a backtick; every other bracket leaves by the as-written return
+    has_tick = lambda nid: any(f.holds(nid, t_, tr_) for (t_, tr_) in ((f"'`' not in {m_}.group(1)", False), (f"'`' in {m_}.group(1)", True), (f"'`' not in {m_}[1]", False), (f"'`' in {m_}[1]", True)))
+    ok_asis = bool(asis) and bool(first_work) and all(has_tick(w.id) for w in first_work)
+    R.check(ok_asis, q, 'positional-as-written', 'an index without any backtick is left exactly as written',
+            "every `[...]` of an expression that contains a backtick somewhere is rewritten, and parts without backticks are re-read with int(): `X[`2001`] + Y[i]`, "
+            "`... + Y[0x1]`, `... + Y[B][0]`, `... + Y[[0, 1]]` raise ValueError although each index is fine on its own - a purely positional index does not keep its Python meaning",
+            where=f.fi.where)
     # resolve_index_in_span: positional text -> int(text); label -> span lookup
     g = Fn(R, f'{VC}._resolve_expression_indexes.<locals>.resolve_index_in_span')
     rets = g.returns()
